@@ -434,7 +434,8 @@ package lisp
 //@   ensures  [evalctx-restored] preserved(LEnv.evalCtx)
 //@   nopanic
 //@   ensures  [frames-below-keep-their-flags] FLAGS(env)
-//@   property C05 C04 C06
+//@   assert-at checkLimits [a-limit-error-is-located-at-the-form-being-evaluated] env.loc == local("v").source
+//@   property C05 C04 C06 C18
 
 //@ func (*LEnv).evalSExpr
 //@   requires rtOK(env)
@@ -1064,3 +1065,68 @@ package lisp
 //@   requires rtOK(env) && argsOK(args, 2) && sealedKinds(args.Cells[1])
 //@   assert-at sort.Stable [a-sealed-list-is-sorted-on-a-copy] old(args.Cells[1].sealed) ==> fresh(arr(arg0.(*lvalByFun).cells))
 //@   property C09 C11
+
+// ---------------------------------------------------------------- C07: gensym
+// Symbols from gensym are distinct from one another because the counter only
+// grows (frame: writers(Runtime.numsym) = {gensym}) and the spelling is an
+// injective rendering of it (fmt, assumed).  They must also be distinct from
+// every symbol the program text can contain: the spelling must not be readable.
+//@ func (*Runtime).GenSym
+//@   requires r != nil
+//@   ensures  [the-spelling-cannot-be-written-in-source] !(('a' <= result[0] && result[0] <= 'z') || ('A' <= result[0] && result[0] <= 'Z'))
+//@   property C07
+
+// ---------------------------------------------------------------- C08: package symbol tables
+// A package is a finite map from names to values; true and false are answered
+// before any lookup and refused by every binding path.
+
+//@ pred isSym(k) = k.Type == LSymbol || k.Type == LQSymbol
+//@ pred isConstName(k) = k.Str == "true" || k.Str == "false"
+
+//@ func (*Package).get
+//@   requires pkg != nil && k != nil
+//@   ensures  [constants-are-answered-before-any-lookup] isSym(k) && isConstName(k) ==> result != nil && fresh(result) && result.Type == LSymbol && result.Str == k.Str
+//@   ensures  [a-bound-name-resolves-to-its-binding] isSym(k) && !isConstName(k) && haskey(pkg.symbols, k.Str) ==> result == pkg.symbols[k.Str]
+//@   ensures  [an-unbound-name-is-an-error] isSym(k) && !isConstName(k) && !haskey(pkg.symbols, k.Str) ==> result != nil && result.Type == LError
+//@   ensures  [lookup-does-not-write-the-table] mapsame(pkg.symbols) && mapsame(pkg.funNames)
+//@   property C08
+
+//@ func (*Package).Put
+//@   uses singletons
+//@   requires pkg != nil && k != nil && v != nil && lvalOK(v)
+//@   ensures  [constants-cannot-be-rebound] isSym(k) && isConstName(k) ==> result.Type == LError && mapsame(pkg.symbols)
+//@   ensures  [non-symbols-are-refused] !isSym(k) ==> result.Type == LError && mapsame(pkg.symbols)
+//@   ensures  [binds-exactly-that-name] isSym(k) && !isConstName(k) ==> result.Type != LError && mapput(pkg.symbols, k.Str, v)
+//@   property C08
+
+//@ func (*Package).Update
+//@   uses singletons
+//@   requires pkg != nil && k != nil && v != nil && lvalOK(v)
+//@   ensures  [constants-cannot-be-rebound] isSym(k) && isConstName(k) ==> result.Type == LError && mapsame(pkg.symbols)
+//@   ensures  [an-unbound-name-is-not-created] isSym(k) && !isConstName(k) && !old(haskey(pkg.symbols, k.Str)) ==> result.Type == LError && mapsame(pkg.symbols)
+//@   ensures  [rebinds-exactly-that-name] isSym(k) && !isConstName(k) && old(haskey(pkg.symbols, k.Str)) ==> result.Type != LError && mapput(pkg.symbols, k.Str, v)
+//@   property C08
+
+//@ func (*LEnv).Put
+//@   uses singletons
+//@   requires env != nil && k != nil && v != nil && rtOK(env)
+//@   ensures  [constants-cannot-be-rebound-lexically] isSym(k) && isConstName(k) ==> result.Type == LError && mapsame(env.scope)
+//@   ensures  [non-symbols-are-refused] !isSym(k) ==> result.Type == LError && mapsame(env.scope)
+//@   ensures  [binds-exactly-that-name-in-this-scope] isSym(k) && !isConstName(k) ==> result.Type != LError && mapput(env.scope, k.Str, v)
+//@   property C08
+
+//@ func (*LEnv).get
+//@   uses singletons
+//@   requires env != nil && k != nil && rtOK(env)
+//@   ensures  [true-and-false-are-never-looked-up] isSym(k) && k.Str == "true" ==> result == singletonTrue
+//@   ensures  [true-and-false-are-never-looked-up-2] isSym(k) && k.Str == "false" ==> result == singletonFalse
+//@   ensures  [a-keyword-evaluates-to-itself] isSym(k) && !isConstName(k) && ext("strings.IndexByte", 0, k.Str, 58) == 0 ==> result == k
+//@   ensures  [an-unqualified-name-goes-through-the-scope-chain] isSym(k) && !isConstName(k) && ext("strings.IndexByte", 0, k.Str, 58) < 0 ==> result == ret("getSimple", 0)
+//@   property C08
+
+//@ func (*LEnv).getSimple
+//@   requires env != nil && k != nil && rtOK(env)
+//@   loop 1 (env) invariant [walking-outwards] env != nil
+//@   loop 1 (env) invariant [the-first-scope-that-binds-the-name-stops-the-walk] old(haskey(env0.scope, k.Str)) ==> env == env0
+//@   ensures  [the-innermost-binding-wins] old(haskey(env0.scope, k.Str)) ==> result == old(env0.scope[k.Str])
+//@   property C08
